@@ -360,6 +360,79 @@ class _Return(Exception):
         self.value = value
 
 
+class _GenClose(Exception):
+    """thrown into a suspended generator body when its consumer abandons it (Python's GeneratorExit)"""
+
+
+class LazyGen:
+    """A generator object of interpreted code (scenarios with `lazy_generators`): the body of the generator function runs in a thread
+    of its own that is handed control only while the consumer waits in next() - the two never run at the same time, so this is a
+    coroutine, with Python's semantics: nothing of the body runs before the first next(), a `yield` suspends it, what the consumer
+    does between two next() calls is visible to the body when it goes on."""
+
+    def __init__(self, parent, m, fn, env, self_obj):
+        import threading
+        self.parent, self.m, self.fn, self.env, self.self_obj = parent, m, fn, env, self_obj
+        self._resume = threading.Semaphore(0)
+        self._produced = threading.Semaphore(0)
+        self.started = self.finished = self.closing = False
+        self.value = self.retval = self.exc = None
+        self.thread = None
+
+    def __iter__(self):
+        return self
+
+    def _run(self):
+        sub = Interp(self.parent.repo, self.parent.ev, self.parent.sc, self.parent.self_cls)
+        sub.depth = self.parent.depth
+        sub._gen = self
+        sub.frames = [(self.fn, self.m, self.self_obj)]
+        try:
+            try:
+                sub.block(self.fn.body, self.env, self.m)
+            except _Return as r_:
+                self.retval = r_.value
+        except _GenClose:
+            pass
+        except BaseException as ex_:  # handed to the consumer, raised there
+            self.exc = ex_
+        self.finished = True
+        self._produced.release()
+
+    def __next__(self):
+        import threading
+        if self.finished:
+            raise StopIteration(self.retval)
+        if not self.started:
+            self.started = True
+            self.thread = threading.Thread(target=self._run, daemon=True)
+            self.thread.start()
+        else:
+            self._resume.release()
+        self._produced.acquire()
+        if self.exc is not None:
+            ex_, self.exc = self.exc, None
+            raise ex_
+        if self.finished:
+            raise StopIteration(self.retval)
+        return self.value
+
+    def handoff(self, v):
+        """called in the generator's thread at a `yield`"""
+        self.value = v
+        self._produced.release()
+        self._resume.acquire()
+        if self.closing:
+            raise _GenClose()
+
+    def close(self):
+        if self.started and not self.finished:
+            self.closing = True
+            self._resume.release()
+            self._produced.acquire()
+        self.finished = True
+
+
 class _Continue(Exception):
     pass
 
@@ -439,6 +512,9 @@ class Interp:
             for p, d in zip(a.kwonlyargs, a.kw_defaults):
                 if p.arg not in env and d is not None:
                     env[p.arg] = self.eval(d, env, m)
+            if getattr(self.sc, "lazy_generators", False) and "contextmanager" not in {(dotted(d_) or "").split(".")[-1] for d_ in fn.decorator_list} \
+                    and any(isinstance(n_, (ast.Yield, ast.YieldFrom)) for n_ in A.walk_no_nested(fn)):
+                return LazyGen(self, m, fn, env, self_obj)  # calling a generator function runs nothing of it yet
             produces = any(isinstance(n_, ast.Yield) for n_ in A.walk_no_nested(fn)) and "contextmanager" not in {(dotted(d_) or "").split(".")[-1] for d_ in fn.decorator_list}
             if produces:
                 env["__yielded__"] = []
@@ -513,6 +589,9 @@ class Interp:
         if isinstance(st, ast.Expr):
             if isinstance(st.value, ast.Constant):
                 return
+            if isinstance(st.value, (ast.Yield, ast.YieldFrom)) and getattr(self, "_gen", None) is not None:
+                self._yield(st.value, env, m)
+                return
             if isinstance(st.value, (ast.Yield, ast.YieldFrom)):
                 # a generator is followed through as straight-line code; what a function with plain `yield`s produces is collected
                 # (call_function hands the collected list to the caller), what it delegates to with `yield from` is evaluated
@@ -570,7 +649,13 @@ class Interp:
                 except _Continue:
                     continue
                 except _Break:
+                    if isinstance(it, LazyGen):
+                        it.close()
                     break
+                except BaseException:
+                    if isinstance(it, LazyGen):
+                        it.close()
+                    raise
             else:
                 self.block(st.orelse, env, m)
             return
@@ -824,10 +909,35 @@ class Interp:
             raise AnalysisError("truth of array")
         return bool(v)
 
+    def _yield(self, e, env, m):
+        """`yield v` / `yield from it` in the body of a lazy generator (this interpreter runs in the generator's thread): the value
+        of the expression is what the consumer sends (nothing here: None) resp. what the delegate returns"""
+        g = self._gen
+        if isinstance(e, ast.Yield):
+            g.handoff(self.eval(e.value, env, m) if e.value is not None else None)
+            return None
+        src_ = self.eval(e.value, env, m)
+        if isinstance(src_, LazyGen):
+            while True:
+                try:
+                    v_ = next(src_)
+                except StopIteration as stop_:
+                    return stop_.value
+                try:
+                    g.handoff(v_)
+                except _GenClose:
+                    src_.close()
+                    raise
+        for v_ in (src_ if src_ is not None else ()):
+            g.handoff(v_)
+        return None
+
     def eval(self, e, env, m):
         self.steps += 1
         if isinstance(e, ast.Constant):
             return e.value
+        if isinstance(e, (ast.Yield, ast.YieldFrom)) and getattr(self, "_gen", None) is not None:
+            return self._yield(e, env, m)
         if isinstance(e, ast.Name):
             if e.id in env:
                 return env[e.id]
@@ -1558,7 +1668,9 @@ class Interp:
             if n == "dict":
                 return isinstance(o, dict)
             if n in ("GeneratorType", "Generator"):
-                return False  # generator functions are followed through when they are called: what comes back is their value
+                return isinstance(o, LazyGen)  # (without `lazy_generators` generator functions are followed through when they are called: what comes back is their value)
+            if n in ("Iterator", "Iterable") and isinstance(o, LazyGen):
+                return True
             if t[1] in ("enum.Enum", "enum.IntEnum"):
                 return isinstance(o, EnumMember)
             if n in ("bytearray", "slice", "complex"):
